@@ -388,6 +388,14 @@ Theorem C01_fasta_blank_comments_removable : forall ls st, iter_fasta st (filter
 Proof. exact fasta_blank_comments_removable. Qed.
 Print Assumptions C01_fasta_blank_comments_removable.
 
+(* FASTA files can be concatenated (the reader-side counterpart of mode "a", for ANY layout of the two files): the records of
+   the first followed by the records of the second *)
+Theorem C01_fasta_concat : forall l1 h l2, head_is GT h = true -> forall st,
+  iter_fasta st (l1 ++ h :: l2)
+  = bind (iter_fasta st l1) (fun r1 => bind (iter_fasta None (h :: l2)) (fun r2 => Ok (r1 ++ r2))).
+Proof. exact fasta_concat. Qed.
+Print Assumptions C01_fasta_concat.
+
 (* deleting every blank line, "#" comment and well-formed "#=G?" annotation line of a Stockholm file changes nothing of the
    sequences that are read *)
 Theorem C01_stk_comments_removable : forall ls d, stk_loop (filter (fun l => negb (stk_noop l)) ls) d = stk_loop ls d.
